@@ -506,7 +506,7 @@ def make_cert(sans):
     if key in _CERTS:
         return _CERTS[key]
     if _KEY is None:
-        _KEY = ec.generate_private_key(ec.SECP256R1())
+        _KEY = ec.derive_private_key(0xC15001, ec.SECP256R1())     # fixed: every run works on the same key
     names = []
     for san in key:
         if san == 'ip-match':
